@@ -336,6 +336,8 @@ pub enum TxClass {
     DpRequest,
     FromReal,
     FromStub,
+    /// Token telegrams that start at or after this time (µs).
+    TokenAfterUs(u64),
 }
 
 #[derive(Serialize, Deserialize, Clone, Debug)]
@@ -435,6 +437,10 @@ pub enum ByzShape {
     ReadyDiag,
     /// Diagnostics reply with these extended-diagnostics bytes.
     ExtDiag(Vec<u8>),
+    /// A damaged telegram (wrong checksum) whose payload contains a complete, valid copy of the
+    /// reply that was due, with different data: a receiver that re-synchronises inside a damaged
+    /// telegram would take the inner bytes for the reply.
+    Nested,
 }
 
 #[derive(Serialize, Deserialize, Clone, Debug)]
